@@ -306,3 +306,78 @@ func zzC10_selftest() {
 	srv.Stop()
 	symWaitUntil(func() bool { return served })
 }
+
+// C09, server side: Stop while a handler of one connection is blocked in a nested request on its connection and
+// another connection is idle - once or from two goroutines at once: the nested request returns, every connection
+// is closed with its on-close callbacks run exactly once, Serve returns, a further Stop is harmless.
+func zzC09_tcp_server_stop() {
+	nestedErr := error(nil)
+	nestedDone := false
+	onClose := [3]int{}
+	srv := New(zzOpt(func(c *Config) {
+		c.Ctx = context.Background()
+		c.MaxMessageSize = 64
+		c.Errors = func(error) {}
+		c.PeriodicRunner = func(f func(now time.Time) bool) {}
+		c.MessagePool = pool.New(0, 1024)
+		n := 0
+		c.GetToken = func() (message.Token, error) { n++; return message.Token{0xEE, byte(n)}, nil }
+		c.BlockwiseEnable = false
+		c.LimitClientParallelRequests = 4
+		c.LimitClientEndpointParallelRequests = 4
+		c.ReceivedMessageQueueSize = 2
+		c.ConnectionCacheSize = 64
+		c.DisableTCPSignalMessageCSM = true
+		c.DisablePeerTCPSignalMessageCSMs = true
+		c.CreateInactivityMonitor = nil
+		c.OnNewConn = func(cc *client.Conn) {
+			if p, ok := cc.NetConn().(*zzPipe); ok {
+				id := p.id
+				cc.AddOnClose(func() { onClose[id]++ })
+			}
+		}
+		c.Handler = func(w *responsewriter.ResponseWriter[*client.Conn], r *pool.Message) {
+			// the handler asks the peer something back and waits for the answer, which never comes
+			req := pool.NewMessage(context.Background())
+			req.SetCode(codes.GET)
+			req.SetToken(message.Token{0xD0})
+			_ = req.SetPath("/back")
+			_, nestedErr = w.Conn().Do(req)
+			nestedDone = true
+		}
+	}))
+	l := &zzListener{conns: make(chan net.Conn, 4), errs: make(chan error, 2), closedC: make(chan struct{})}
+	served := false
+	go func() {
+		_ = srv.Serve(l)
+		served = true
+	}()
+	symSchedCanonical(symParam("canonical", 1) == 1)
+	busy, idle := zzNewPipe(1), zzNewPipe(2)
+	l.conns <- net.Conn(busy)
+	l.conns <- net.Conn(idle)
+	busy.in <- zzFrame(codes.GET, message.Token{0xA1}, nil)
+	symIdle()
+	symAssert(!nestedDone && len(busy.out) > 0, "the handler's nested request is on the stream and waits")
+	stoppers := 0
+	if symChoose("concurrent-stop", 2) == 1 {
+		for i := 0; i < 2; i++ {
+			go func() {
+				srv.Stop()
+				stoppers++
+			}()
+		}
+		symWaitUntil(func() bool { return stoppers == 2 })
+		symCover("stopped-twice-concurrently")
+	} else {
+		srv.Stop()
+	}
+	symWaitUntil(func() bool { return served })
+	symIdle()
+	symAssert(nestedDone && nestedErr != nil, "the request in flight inside the handler returns an error when the server stops")
+	symAssert(busy.closed && idle.closed, "Stop closes every connection")
+	symAssert(onClose[1] == 1 && onClose[2] == 1, "every connection's on-close callback ran exactly once")
+	srv.Stop()
+	symAssert(onClose[1] == 1 && onClose[2] == 1, "a further Stop runs nothing again")
+	symCover("server-stopped")
+}
